@@ -414,13 +414,14 @@ class Pair(object):
             miu = LINK_MIU if k == 0 else LINK_MIU - used - 3
             used += 2 + len(p)
             del Pp.enqlog[:]
+            ptxt = pdu_text(p)            # before dispatch: the receiver gets the object itself
             r = classify(lambda: Pp.llc.dispatch(p))
             evs = ['enq:%d:%s' % (sid, pdu_text(x)) for sid, x in Pp.enqlog]
             hang = r[0] == 'hang'
             crashed = None if r[0] in ('ok', 'hang') else r
             if not hang:
                 evs += Pp.reap()
-            out.append((p.ssap if p.name != 'SNL' else 1, miu, pdu_text(p), sorted(evs), hang, p, crashed))
+            out.append((p.ssap if p.name != 'SNL' else 1, miu, ptxt, sorted(evs), hang, p, crashed))
             if hang or crashed:
                 break
         return out
